@@ -345,6 +345,12 @@ func C04(x *Ctx) {
 				continue
 			}
 			var sb strings.Builder
+			// the announced target durations belong to what "the same durations at the same time" means
+			pt := int64(-1)
+			if so.PL.Media.PartTargetNS != nil {
+				pt = *so.PL.Media.PartTargetNS
+			}
+			fmt.Fprintf(&sb, "TARGETDURATION=%d PART-TARGET=%d ", so.PL.Media.TargetDuration, pt)
 			for _, s := range so.PL.Media.Segments {
 				fmt.Fprintf(&sb, "%d:%s:%v ", s.MSN, s.ExtinfRaw, s.Gap)
 			}
